@@ -114,7 +114,14 @@ def gen_case(rng, tier):
             t = rng.choice([5, -1, 7])
         rows.append({"t": t, "cells": {k: rng.choice([True, False, None]) for k in cols}})
     c["rows"] = rows
-    stages = sorted(set(c["dists"]) | {"nostage"} | ({v for _, v in c["mapping"].get("al", [])} & set(STAGE_NAMES)))
+    names = STAGE_NAMES
+    if c["mapping"]["kind"] != "default" and rng.random() < 0.4:
+        # a FALSY T-stage key (R6-C08-m1, R3-unilateral-m1): the stage "other" is called "" in this case
+        ren = lambda x: "" if x == "other" else x  # noqa: E731
+        c["dists"] = {ren(k): v for k, v in c["dists"].items()}
+        c["mapping"]["al"] = [[k, ren(v)] for k, v in c["mapping"]["al"]]
+        names = [ren(x) for x in STAGE_NAMES]
+    stages = sorted(set(c["dists"]) | {"nostage"} | ({v for _, v in c["mapping"].get("al", [])} & set(names)))
     c["query_ts"] = stages
     c["query_t"] = rng.choice(stages) if rng.random() < 0.3 else rng.choice(sorted(c["dists"]))
     c["rel_t"] = rng.choice(sorted(c["dists"]))
